@@ -9,11 +9,34 @@ use util::*;
 use blake_hash::{Blake224, Blake256, Blake384, Blake512, Digest};
 
 fn digest(variant: u32, msg: &[u8]) -> Vec<u8> {
+    // half of the cases reuse an object that has already produced a digest in place
+    // (FixedOutput::finalize_fixed_reset) or absorbed data and was reset
+    macro_rules! go {
+        ($t:ident) => {{
+            match msg.len() % 4 {
+                2 => {
+                    let mut h = $t::default();
+                    digest::Update::update(&mut h, &msg[..msg.len().min(5)]);
+                    let _ = digest::FixedOutput::finalize_fixed_reset(&mut h);
+                    digest::Update::update(&mut h, msg);
+                    digest::FixedOutput::finalize_fixed(h).to_vec()
+                }
+                3 => {
+                    let mut h = $t::default();
+                    digest::Update::update(&mut h, &[0x5au8; 200][..]);
+                    digest::Reset::reset(&mut h);
+                    digest::Update::update(&mut h, msg);
+                    digest::FixedOutput::finalize_fixed(h).to_vec()
+                }
+                _ => $t::digest(msg).to_vec(),
+            }
+        }};
+    }
     match variant {
-        224 => Blake224::digest(msg).to_vec(),
-        256 => Blake256::digest(msg).to_vec(),
-        384 => Blake384::digest(msg).to_vec(),
-        _ => Blake512::digest(msg).to_vec(),
+        224 => go!(Blake224),
+        256 => go!(Blake256),
+        384 => go!(Blake384),
+        _ => go!(Blake512),
     }
 }
 
